@@ -23,6 +23,9 @@ def run(ctx):
     tpairs.run_tpairs(ctx, "C01", only=lambda t: not ({"TEXIT", "TDELETE", "PAUSE", "UNPAUSE"} & set(t)) and t[3] != "paused")
     n = 16 if ctx.quick else 120
     corelib.run_modes(ctx, "C01", [("core", n), ("flow", n // 2), ("churn", n // 4), ("timing", n // 2)])
+    # what a consumer leaves unanswered is redelivered on whatever channels there are now: more channels than one scan round
+    # takes, channels swapped (one deleted, one created, back to back) between two refreshes of the scanner's list
+    corelib.queue_scan(ctx, "C01", 6 if ctx.quick else 40, model=False)
     if not ctx.quick:
         corelib.repo_tests(ctx, "C01")
     ctx.cov["distinct_nontrivial"] = len(ctx.notes.get("event_kinds", {}))
